@@ -3,6 +3,7 @@
    over the flash-backed storages; [Pair] relates them (same bookkeeping, flash views = maps, unwritten regions erased). *)
 From Coq Require Import List NArith.
 Require Import Nor Geom Store GRecon Sim Roundtrip.
+Require Mgr MRecon MgrSim StartSim RecLive Consts.
 Import ListNotations.
 Open Scope N_scope.
 
@@ -21,5 +22,26 @@ Theorem c07_pairing_preserved : forall g (P : nat -> N) (cap vbits : nat) sa sc 
   snd ra = snd rc /\ Pair g (fst ra) (fst rc) /\ Next g (fst ra) /\ n (fst ra) = n sa.
 Proof. exact handle_block_sim. Qed.
 
+(* The same on the EXECUTABLE byte-level model (Mgr.v, the functions compared with the implementation): after start_update and
+   ANY list of handle_segment calls that all return Ok and leave the session incomplete (any indices, any bounded payloads -
+   consistency with an image is not needed), on a device without an armed fault whose cells are bytes, the two loaders that
+   try_recover_inner runs - the status-table scan in 256-byte strides and the one-byte probe of every matrix row's diagonal
+   byte at  capacity * size + row offset(k) + k / 8  - return exactly the done / used bits of the live session and leave the
+   medium unchanged. *)
+Theorem c07_executable_loaders_read_live_state :
+  forall m sz cnt (checked ffr : bool) segs d d1 u d' u' outs,
+  (2 <= Mgr.m_slots m)%nat -> Mgr.m_size m - Consts.DATA_REGION_OFFSET < 4294967295 -> Mgr.dfail d = None -> wf (Mgr.dmem d) ->
+  Mgr.start_update m sz cnt d = (d1, Mgr.ROk u) ->
+  Forall (fun p => snd p < 2 ^ (8 * sz)) segs ->
+  MgrSim.feed m checked ffr u d1 segs = Some (d', u', outs) ->
+  MRecon.is_complete (Mgr.u_rd u') = false ->
+  let g := MgrSim.geo_of m (Mgr.u_fw u) (Mgr.u_par u) sz cnt in
+  (forall d2 dn, Mgr.load_status (S (N.to_nat (cnt / Consts.MAX_SEGMENT_SIZE))) m (Mgr.u_fw u) 0 cnt (fun _ => false) d' = (d2, Some dn) ->
+     Mgr.dmem d2 = Mgr.dmem d' /\ forall i, (i < MRecon.n (Mgr.u_rd u'))%nat -> dn i = MRecon.done (Mgr.u_rd u') i) /\
+  (forall d2 us, Mgr.load_used m (Mgr.u_par u) (capL g * sz) (seq 0 (Mgr.u_maxl u)) (fun _ => false) d' = (d2, Some us) ->
+     Mgr.dmem d2 = Mgr.dmem d' /\ forall k, (k < Mgr.u_maxl u)%nat -> us k = MRecon.used (Mgr.u_rd u') k).
+Proof. exact RecLive.recovery_loaders_read_live_state. Qed.
+
 Print Assumptions c07_recover_roundtrip.
+Print Assumptions c07_executable_loaders_read_live_state.
 Print Assumptions c07_pairing_preserved.
